@@ -19,3 +19,128 @@ package match
 //@   nobody
 //@   assigns nothing
 //@   ensures out == myOut(m, b) && len(errs) == myNErr(m, b)
+
+//@ axiom match_sentinels: errPathNotFound != nil && setJSONOptions != nil
+//@
+//@ func (*anyMatcher).matcherError(a, err, path) returns (r)
+//@   mode ctl
+//@   requires a != nil
+//@   assigns nothing
+//@   ensures r.Reason == err && r.Matcher == a.name && r.Path == path
+//@
+//@ func anyMatcher.JSON(a, b) returns (out, errs)
+//@   mode ctl
+//@   requires [owned] owned(b)
+//@   assigns nothing
+//@   ensures [fold] out == anyDocJ(b, arr(a.paths), a.placeholder, a.errOnMissingPath, len(a.paths))
+//@   ensures [errors] len(errs) == anyErrJ(b, arr(a.paths), a.placeholder, a.errOnMissingPath, len(a.paths))
+//@   ensures [owned] owned(out)
+//@   loop 1 invariant 0 <= $idx && $idx <= len(a.paths) && owned(json)
+//@   loop 1 invariant json == anyDocJ(b, arr(a.paths), a.placeholder, a.errOnMissingPath, $idx) && len(errs) == anyErrJ(b, arr(a.paths), a.placeholder, a.errOnMissingPath, $idx)
+//@
+//@ func typePlaceholder(value) returns (r)
+//@   mode ctl
+//@   pure
+//@   assigns nothing
+//@   ensures r == "<Type:" + typeName(dyntype(value)) + ">"
+//@ axiom typePh_def: forall v Any {typePh(v)}: typePh(v) == box(typePlaceholder(v))
+//@
+//@ func (*typeMatcher).matcherError(t, err, path) returns (r)
+//@   mode ctl
+//@   requires t != nil
+//@   assigns nothing
+//@   ensures r.Reason == err && r.Matcher == t.name && r.Path == path
+//@
+//@ func typeCheck(value) returns (r)
+//@   mode ctl
+//@   assigns alloc
+//@   ensures (r == nil) == hasType_ExpectedType(value)
+//@
+//@ func typeMatcher.JSON(t, b) returns (out, errs)
+//@   mode ctl
+//@   requires [owned] owned(b)
+//@   assigns alloc
+//@   ensures [fold] out == typeDocJ(b, arr(t.paths), t.errOnMissingPath, len(t.paths))
+//@   ensures [errors] len(errs) == typeErrJ(b, arr(t.paths), t.errOnMissingPath, len(t.paths))
+//@   ensures [owned] owned(out)
+//@   loop 1 invariant 0 <= $idx && $idx <= len(t.paths) && owned(json)
+//@   loop 1 invariant json == typeDocJ(b, arr(t.paths), t.errOnMissingPath, $idx) && len(errs) == typeErrJ(b, arr(t.paths), t.errOnMissingPath, $idx)
+//@
+//@ func (*customMatcher).matcherError(c, err) returns (r)
+//@   mode ctl
+//@   requires c != nil
+//@   assigns nothing
+//@   ensures len(r) == 1 && r[0].Reason == err && r[0].Matcher == c.name && r[0].Path == c.path
+//@
+//@ func (*customMatcher).JSON(c, b) returns (out, errs)
+//@   mode ctl
+//@   requires c != nil
+//@   requires [owned] owned(b)
+//@   assigns nothing
+//@   ensures [missing_error] !jsonHas(b, c.path) && c.errOnMissingPath ==> len(errs) == 1 && errs[0].Reason == errPathNotFound
+//@   ensures [missing_ignored] !jsonHas(b, c.path) && !c.errOnMissingPath ==> len(errs) == 0 && out == b
+//@   ensures [one_error_at_most] len(errs) <= 1
+//@   ensures [owned] len(errs) == 0 ==> owned(out)
+
+// ---- YAML variants: the caller's bytes are only read (parsed); the result is a fresh rendering -------------
+//@ func anyMatcher.YAML(a, b) returns (out, errs)
+//@   mode ctl
+//@   option paths-in-loops
+//@   assigns alloc, yfile
+//@   ensures [parse_error] yParseErr(b) != nil ==> out == b && len(errs) == 1
+//@   ensures [fold] yParseErr(b) == nil ==> out == yRender(anyDocY(yParse(b), arr(a.paths), a.placeholder, a.errOnMissingPath, len(a.paths)), suffixof("\n", b))
+//@   ensures [errors] yParseErr(b) == nil ==> len(errs) == anyErrY(yParse(b), arr(a.paths), a.placeholder, a.errOnMissingPath, len(a.paths))
+//@   loop 1 invariant 0 <= $idx && $idx <= len(a.paths) && f != nil && !old(alloc)[f]
+//@   loop 1 invariant forall r Ref: old(alloc)[r] ==> yfile[r] == old(yfile)[r]
+//@   loop 1 invariant yfile[f] == anyDocY(yParse(b), arr(a.paths), a.placeholder, a.errOnMissingPath, $idx) && len(errs) == anyErrY(yParse(b), arr(a.paths), a.placeholder, a.errOnMissingPath, $idx)
+//@
+//@ func typeMatcher.YAML(t, b) returns (out, errs)
+//@   mode ctl
+//@   assigns alloc, yfile
+//@   ensures [parse_error] yParseErr(b) != nil ==> out == b && len(errs) == 1
+//@   ensures [errors_bound] yParseErr(b) == nil ==> len(errs) <= len(t.paths)
+//@   loop 1 invariant 0 <= $idx && $idx <= len(t.paths) && f != nil && !old(alloc)[f] && len(errs) <= $idx
+//@   loop 1 invariant forall r Ref: old(alloc)[r] ==> yfile[r] == old(yfile)[r]
+//@
+//@ func (*customMatcher).YAML(c, b) returns (out, errs)
+//@   mode ctl
+//@   requires c != nil
+//@   assigns alloc, yfile
+//@   ensures [one_error_at_most] len(errs) <= 1
+//@   ensures [parse_error] yParseErr(b) != nil ==> len(errs) == 1
+//@   ensures [missing_ignored] yParseErr(b) == nil && ypErr(c.path) == nil && !yHas(yParse(b), c.path) && yFilterErr(yParse(b), c.path) == yaml.ErrNotFoundNode && !c.errOnMissingPath ==> len(errs) == 0 && out == b
+//@   ensures [missing_error] yParseErr(b) == nil && ypErr(c.path) == nil && !yHas(yParse(b), c.path) && c.errOnMissingPath ==> len(errs) == 1
+
+// ---- constructors and options ---------------------------------------------------------------------------
+//@ func Any(paths) returns (r)
+//@   mode ctl
+//@   assigns alloc
+//@   ensures fresh(r) && r.errOnMissingPath && r.paths == paths && r.name == "Any" && r.placeholder == box("<Any value>")
+//@ func (*anyMatcher).Placeholder(a, p) returns (r)
+//@   mode ctl
+//@   requires a != nil
+//@   assigns a.placeholder
+//@   ensures r == a && a.placeholder == p
+//@ func (*anyMatcher).ErrOnMissingPath(a, e) returns (r)
+//@   mode ctl
+//@   requires a != nil
+//@   assigns a.errOnMissingPath
+//@   ensures r == a && a.errOnMissingPath == e
+//@ func Custom(path, callback) returns (r)
+//@   mode ctl
+//@   assigns alloc
+//@   ensures fresh(r) && r.errOnMissingPath && r.path == path && r.name == "Custom"
+//@ func (*customMatcher).ErrOnMissingPath(c, e) returns (r)
+//@   mode ctl
+//@   requires c != nil
+//@   assigns c.errOnMissingPath
+//@   ensures r == c && c.errOnMissingPath == e
+//@ func (*typeMatcher).ErrOnMissingPath(t, e) returns (r)
+//@   mode ctl
+//@   requires t != nil
+//@   assigns t.errOnMissingPath
+//@   ensures r == t && t.errOnMissingPath == e
+//@ func Type(paths) returns (r)
+//@   mode ctl
+//@   assigns alloc
+//@   ensures fresh(r) && r.errOnMissingPath && r.paths == paths && r.name == "Type"
